@@ -48,6 +48,14 @@ def gibbs_duhem(l1, l2):
     return X * D(l1, 'x1') + (1 - X) * D(l2, 'x1')
 
 
+def frame_ob(cx, name, paths, fn):
+    """the thermodynamic functions are functions of their arguments only: nothing reachable from the arguments is modified
+    (a hidden cache would make the result depend on earlier calls)"""
+    writes = [w for p in paths for w in p.ex.ext_writes]
+    cx.ob(name + ".frame", [], blit(not writes), kind='frame', function=fn, writes=str(sorted({w[1] for w in writes}))[:300],
+          statement="modifies nothing: the result depends on the arguments only")
+
+
 def obligations(cx):
     src = cx.src
     fn = 'calculate_activity_coefficients'
@@ -61,37 +69,45 @@ def obligations(cx):
         ps = cac(cx, mix, comp, 'NRTL', base)
         none_raise(cx, tag + ".returns", ps, function=fn)
         no_abnormal(cx, tag, ps, function=fn)
-        r = only_return(ps, tag)
-        l1, l2 = lngamma(r.value)
-        gd = gibbs_duhem(l1, l2)
-        check_D(l1, 'x1', D(l1, 'x1'), RG)
-        cx.ob(tag + ".gibbs-duhem", r.pc, eq(gd, 0), function=fn, statement="x1 dln(gamma1)/dx1 + x2 dln(gamma2)/dx1 == 0 for 0<x1<1, all parameters")
-        cx.cover(tag + ".gibbs-duhem", r.pc)
-        cx.must_fail(tag + ".gibbs-duhem", r.pc, eq(X * D(l1, 'x1') + X * D(l2, 'x1'), 0))
+        frame_ob(cx, tag, ps, fn)
+        for pi, r in enumerate(returns(ps)):          # one path on the current tree; every path must satisfy the identities
+            ptag = tag if pi == 0 else "%s.path%d" % (tag, pi)
+            l1, l2 = lngamma(r.value)
+            gd = gibbs_duhem(l1, l2)
+            check_D(l1, 'x1', D(l1, 'x1'), RG)
+            cx.ob(ptag + ".gibbs-duhem", r.pc, eq(gd, 0), function=fn, statement="x1 dln(gamma1)/dx1 + x2 dln(gamma2)/dx1 == 0 for 0<x1<1, all parameters")
+            cx.cover(ptag + ".gibbs-duhem", r.pc)
+            if pi == 0: cx.must_fail(ptag + ".gibbs-duhem", r.pc, eq(X * D(l1, 'x1') + X * D(l2, 'x1'), 0))
+        r = returns(ps)[0]
         differential(cx, fn, None, [], dict(temperature=Tt, mixture=mix, composition=comp, calculation_type='NRTL'), ps, RG, label=tag)
         # gamma_i -> 1 as component i becomes pure: the real code evaluated at the end points
         for xv, i in ((1, 0), (0, 1)):
-            rr = only_return(cac(cx, mix, W.composition(src, lift(xv), 'molar'), 'NRTL', [Tt > 0]), tag)
-            cx.ob(tag + ".pure-limit.gamma%d" % (i + 1), rr.pc, eq(rr.value[i], 1), function=fn, statement="gamma_i = 1 for pure component i")
-            no_abnormal(cx, tag + ".pure-limit.gamma%d" % (i + 1), [rr], function=fn)
+            for pi, rr in enumerate(returns(cac(cx, mix, W.composition(src, lift(xv), 'molar'), 'NRTL', [Tt > 0]))):
+                nm = tag + ".pure-limit.gamma%d" % (i + 1) + ("" if pi == 0 else ".path%d" % pi)
+                cx.ob(nm, rr.pc, eq(rr.value[i], 1), function=fn, statement="gamma_i = 1 for pure component i")
+                no_abnormal(cx, nm, [rr], function=fn)
         # Raoult: vanishing interaction parameters
         m0 = W.mixture(src, nr=nr)
         for k in ('g12', 'g21', 'a12', 'a21'): m0.f['nrtl_params'].f[k] = 0
-        rr = only_return(cac(cx, m0, comp, 'NRTL', base), tag)
-        cx.ob(tag + ".raoult", rr.pc, band(eq(rr.value[0], 1), eq(rr.value[1], 1)), function=fn, statement="NRTL with g=a=0 gives gamma=(1,1)")
+        for pi, rr in enumerate(returns(cac(cx, m0, comp, 'NRTL', base))):
+            cx.ob(tag + ".raoult" + ("" if pi == 0 else ".path%d" % pi), rr.pc, band(eq(rr.value[0], 1), eq(rr.value[1], 1)), function=fn, statement="NRTL with g=a=0 gives gamma=(1,1)")
         # mass-fraction input is converted first: identical to the call with the converted mole fraction
         w = var('w')
-        rw = only_return(cac(cx, mix, W.composition(src, w, 'weight'), 'NRTL', [w > 0, w < 1, Tt > 0] + W.mixture_pre()), tag)
+        psw = cac(cx, mix, W.composition(src, w, 'weight'), 'NRTL', [w > 0, w < 1, Tt > 0] + W.mixture_pre())
+        frame_ob(cx, tag + ".weight-input", psw, fn)
         M1, M2 = var('M1'), var('M2')
         xw = (w / M1) / (w / M1 + (1 - w) / M2)
-        g1 = subst(r.value[0], {'x1': xw}); g2 = subst(r.value[1], {'x1': xw})
-        cx.ob(tag + ".basis", rw.pc, band(eq(rw.value[0], g1), eq(rw.value[1], g2)), function=fn,
-              statement="activity coefficients for a mass fraction equal those for the equivalent mole fraction")
+        for pi, rw in enumerate(returns(psw)):
+            for qi, r_ in enumerate(returns(ps)):
+                g1 = subst(r_.value[0], {'x1': xw}); g2 = subst(r_.value[1], {'x1': xw})
+                cx.ob(tag + ".basis" + ("" if pi + qi == 0 else ".paths%d-%d" % (pi, qi)), rw.pc + [subst(c, {'x1': xw}) for c in r_.pc], band(eq(rw.value[0], g1), eq(rw.value[1], g2)), function=fn,
+                      statement="activity coefficients for a mass fraction equal those for the equivalent mole fraction")
     # ------------------------------------------------------------------ UNIQUAC
     mix = W.mixture(src)
     comp = W.composition(src, X, 'molar')
     upre = base + W.positive('r1', 'r2', 'q1', 'q2', 'qi1', 'qi2')
     ps = cac(cx, mix, comp, 'UNIQUAC', upre)
+    frame_ob(cx, "uniquac", ps, fn)
     none_raise(cx, "uniquac.returns", ps, function=fn)
     no_abnormal(cx, "uniquac", ps, function=fn)
     r = only_return(ps, 'uniquac')
@@ -143,6 +159,7 @@ def obligations(cx):
         pre = base + W.mixture_pre() + (W.positive('r1', 'r2', 'q1', 'q2', 'qi1', 'qi2') if model == 'UNIQUAC' else [])
         pm = cx.explore(call(src, gp, [], dict(temperature=Tt, mixture=mix, composition=W.composition(src, X, 'molar'), calculation_type=model)), contracts=ctr, pre=pre)
         rm = only_return(pm, gp)
+        frame_ob(cx, "pressures.%s.molar" % model, pm, gp)
         cx.requires_obs("pressures.%s.molar" % model, pm)
         psat1 = only_return(cx.explore(call(src, 'Component.get_vapor_pressure', [Tt], self_obj=mix.f['first_component']), pre=pre)).value
         psat2 = only_return(cx.explore(call(src, 'Component.get_vapor_pressure', [Tt], self_obj=mix.f['second_component']), pre=pre)).value
@@ -153,6 +170,7 @@ def obligations(cx):
         pw = cx.explore(call(src, gp, [], dict(temperature=Tt, mixture=mix, composition=W.composition(src, w, 'weight'), calculation_type=model)), contracts=ctr,
                         pre=[w > 0, w < 1, Tt > 0] + W.mixture_pre())
         rw = only_return(pw, gp)
+        frame_ob(cx, "pressures.%s.weight" % model, pw, gp)
         M1, M2 = var('M1'), var('M2')
         xw = (w / M1) / (w / M1 + (1 - w) / M2)
         want1 = subst(rm.value[0], {'x1': xw}); want2 = subst(rm.value[1], {'x1': xw})
